@@ -15,7 +15,7 @@
 //! kind of key material including custom method data.
 use identity_core::common::{Object, Url};
 use identity_core::convert::{FromJson, ToJson};
-use identity_did::{CoreDID, DIDUrl};
+use identity_did::{CoreDID, DIDUrl, DID};
 use identity_document::document::{CoreDocument, DocumentBuilder};
 use identity_document::service::{Service, ServiceEndpoint};
 use identity_iota_core::IotaDocument;
@@ -75,17 +75,36 @@ struct Uni {
   kind: &'static str,
   dids: [String; 2],
   frags: Vec<&'static str>,
+  /// per fragment: it contains a character that delimits a component elsewhere in a DID URL ('/' or '?')
+  delim: Vec<bool>,
+  /// per fragment: it starts with the DID scheme ("did:"), i.e. the fragment text alone reads as a DID URL
+  didlike: Vec<bool>,
   by_str: BTreeMap<String, Id>,
   urls: BTreeMap<Id, DIDUrl>,
 }
 
 impl Uni {
   fn new(kind: &'static str, dids: [&str; 2], frags: &[&'static str]) -> Uni {
-    let mut u = Uni { kind, dids: [dids[0].to_string(), dids[1].to_string()], frags: frags.to_vec(), by_str: BTreeMap::new(), urls: BTreeMap::new() };
+    let mut u = Uni {
+      kind,
+      dids: [dids[0].to_string(), dids[1].to_string()],
+      frags: frags.to_vec(),
+      delim: frags.iter().map(|f| f.contains('/') || f.contains('?')).collect(),
+      didlike: frags.iter().map(|f| f.starts_with("did:")).collect(),
+      by_str: BTreeMap::new(),
+      urls: BTreeMap::new(),
+    };
+    assert!(frags.len() >= 2, "setup: a universe needs two fragments");
+    for (a, f) in frags.iter().enumerate() {
+      assert!(!f.is_empty() && !f.contains('#') && !f.contains(' '), "setup: not a fragment: {:?}", f);
+      assert!(frags.iter().skip(a + 1).all(|g| g != f), "setup: fragment twice in a universe");
+    }
     for id in u.all_ids() {
       let s = u.s(id);
       let url = catch(|| DIDUrl::parse(&s)).expect("setup: DIDUrl::parse panicked").expect("setup: DIDUrl::parse rejected a universe id");
       assert_eq!(url.to_string(), s, "setup: universe id does not print as written");
+      assert_eq!(url.fragment(), Some(u.frags[id.frag as usize]), "setup: universe id parsed with another fragment");
+      assert_eq!(url.did().as_str(), u.dids[id.did as usize], "setup: universe id parsed with another DID");
       u.by_str.insert(s, id);
       u.urls.insert(id, url);
     }
@@ -129,6 +148,8 @@ struct Qry {
   url: Option<DIDUrl>,
   pass: Pass,
   form: &'static str,
+  /// a full id without path and query (DID directly followed by '#')
+  pathless: bool,
 }
 
 /// Calls `$body` with `$x` bound to the query in the form `$q.pass` says.
@@ -169,36 +190,45 @@ fn build_queries(u: &Uni) -> Vec<Qry> {
   let mut v = Vec::new();
   for id in u.all_ids() {
     let form = if id.var == 0 { "full-id" } else { "full-id-pathquery" };
-    v.push(Qry { did: Some(id.did), frag: id.frag, text: u.s(id), url: None, pass: Pass::Str, form });
+    v.push(Qry { did: Some(id.did), frag: id.frag, text: u.s(id), url: None, pass: Pass::Str, form, pathless: id.var == 0 });
   }
+  // A fragment handed over without its '#' denotes that fragment, unless the text itself reads as a DID URL: the text
+  // "did:key:z6Mk" is the DID did:key:z6Mk (a DID URL without fragment), not a by-fragment query, so the statement says
+  // nothing about it and the bare forms are left out for such fragments (the '#'-led and RelativeDIDUrl forms are not).
   for f in 0..u.frags.len() as u8 {
-    v.push(Qry { did: None, frag: f, text: u.frags[f as usize].to_string(), url: None, pass: Pass::Str, form: "bare-fragment" });
+    if u.didlike[f as usize] {
+      continue;
+    }
+    v.push(Qry { did: None, frag: f, text: u.frags[f as usize].to_string(), url: None, pass: Pass::Str, form: "bare-fragment", pathless: false });
   }
   for id in u.all_ids() {
-    v.push(Qry { did: Some(id.did), frag: id.frag, text: u.s(id), url: Some(u.url(id).clone()), pass: Pass::UrlRef, form: "full-id-as-DIDUrl" });
+    v.push(Qry { did: Some(id.did), frag: id.frag, text: u.s(id), url: Some(u.url(id).clone()), pass: Pass::UrlRef, form: "full-id-as-DIDUrl", pathless: id.var == 0 });
   }
   for f in 0..u.frags.len() as u8 {
-    v.push(Qry { did: None, frag: f, text: format!("#{}", u.frags[f as usize]), url: None, pass: Pass::Str, form: "hash-fragment" });
-    v.push(Qry { did: None, frag: f, text: format!("{}#{}", VARS[1], u.frags[f as usize]), url: None, pass: Pass::Str, form: "relative-url" });
+    v.push(Qry { did: None, frag: f, text: format!("#{}", u.frags[f as usize]), url: None, pass: Pass::Str, form: "hash-fragment", pathless: false });
+    v.push(Qry { did: None, frag: f, text: format!("{}#{}", VARS[1], u.frags[f as usize]), url: None, pass: Pass::Str, form: "relative-url", pathless: false });
   }
   // the remaining conversions into the library's query type: a DID URL handed over by value, a `&String`,
   // and the relative part of a DID URL (which carries no DID: it denotes the fragment only)
   for id in u.all_ids() {
-    v.push(Qry { did: Some(id.did), frag: id.frag, text: u.s(id), url: Some(u.url(id).clone()), pass: Pass::UrlOwned, form: "full-id-as-owned-DIDUrl" });
+    v.push(Qry { did: Some(id.did), frag: id.frag, text: u.s(id), url: Some(u.url(id).clone()), pass: Pass::UrlOwned, form: "full-id-as-owned-DIDUrl", pathless: id.var == 0 });
   }
   for id in u.all_ids() {
     if id.var == 0 {
-      v.push(Qry { did: Some(id.did), frag: id.frag, text: u.s(id), url: None, pass: Pass::StringRef, form: "full-id-as-String-ref" });
+      v.push(Qry { did: Some(id.did), frag: id.frag, text: u.s(id), url: None, pass: Pass::StringRef, form: "full-id-as-String-ref", pathless: id.var == 0 });
     }
   }
   for f in 0..u.frags.len() as u8 {
-    v.push(Qry { did: None, frag: f, text: u.frags[f as usize].to_string(), url: None, pass: Pass::StringRef, form: "bare-fragment-as-String-ref" });
+    if u.didlike[f as usize] {
+      continue;
+    }
+    v.push(Qry { did: None, frag: f, text: u.frags[f as usize].to_string(), url: None, pass: Pass::StringRef, form: "bare-fragment-as-String-ref", pathless: false });
   }
   for id in u.all_ids() {
     if id.did == 0 {
       let rel = u.url(id).url().to_string();
       assert_eq!(rel, format!("{}#{}", VARS[id.var as usize], u.frags[id.frag as usize]), "setup: relative part of a universe id");
-      v.push(Qry { did: None, frag: id.frag, text: rel, url: Some(u.url(id).clone()), pass: Pass::RelRef, form: "relative-part-as-RelativeDIDUrl" });
+      v.push(Qry { did: None, frag: id.frag, text: rel, url: Some(u.url(id).clone()), pass: Pass::RelRef, form: "relative-part-as-RelativeDIDUrl", pathless: false });
     }
   }
   v
@@ -808,6 +838,24 @@ impl Cx {
     self.rep.violation(&sig, &format!("{} panicked: {} at {}", what, p.msg, p.loc()), case);
   }
 
+  /// Counters for the ids / queries whose fragment is not a plain name (vacuity guards for those workloads).
+  fn count_special_id(&mut self, u: &Uni, id: Id, what: &str) {
+    if u.delim[id.frag as usize] {
+      self.rep.inc(&format!("{}_delim_fragment", what));
+    }
+    if u.didlike[id.frag as usize] {
+      self.rep.inc(&format!("{}_did_fragment", what));
+    }
+  }
+  fn count_special_query(&mut self, u: &Uni, q: &Qry, what: &str) {
+    if q.pathless && u.delim[q.frag as usize] {
+      self.rep.inc(&format!("{}_fullid_delim_fragment", what));
+    }
+    if q.pass == Pass::RelRef && u.didlike[q.frag as usize] {
+      self.rep.inc(&format!("{}_relref_did_fragment", what));
+    }
+  }
+
   /// Executes one operation and all per-step oracles. `false` = the history ends here (document or model broken).
   fn step<D: Doc>(&mut self, env: &mut Env, st: &Start, doc: &mut D, model: &mut Model, op: Op, hist: &mut Hist) -> bool {
     self.rep.eval();
@@ -846,6 +894,9 @@ impl Cx {
           Ok(Err(e)) => {
             out = Out::Refused;
             self.rep.inc("insert_method_refused");
+            if pre.locate(id).is_some() || pre.svc.iter().any(|(i, _)| *i == id) {
+              self.count_special_id(&env.u, id, "insert_refused_taken_id");
+            }
             errtxt = e;
             cands.push(pre.clone());
           }
@@ -911,6 +962,9 @@ impl Cx {
           Ok(Err(e)) => {
             out = Out::Refused;
             self.rep.inc("insert_service_refused");
+            if pre.locate(id).is_some() || pre.svc.iter().any(|(i, _)| *i == id) {
+              self.count_special_id(&env.u, id, "insert_refused_taken_id");
+            }
             errtxt = e;
             cands.push(pre.clone());
           }
@@ -954,6 +1008,7 @@ impl Cx {
           Ok(Ok(true)) => {
             out = Out::True;
             self.rep.inc("attach_true");
+            self.count_special_query(&env.u, &qr, "attach_true");
             for (i, _) in pre.vm.iter().filter(|(i, _)| qr.matches(*i)) {
               if !pre.rel[rel as usize].iter().any(|e| e.id() == *i) {
                 let mut e = pre.clone();
@@ -985,6 +1040,7 @@ impl Cx {
           Ok(Ok(true)) => {
             out = Out::True;
             self.rep.inc("detach_true");
+            self.count_special_query(&env.u, &qr, "detach_true");
             for (i, _) in pre.vm.iter().filter(|(i, _)| qr.matches(*i)) {
               if let Some(p) = pre.rel[rel as usize].iter().position(|e| *e == Ent::Ref(*i)) {
                 let mut e = pre.clone();
@@ -1245,6 +1301,9 @@ impl Cx {
           self.rep.inc("resolve_method_checks");
           if acc.len() == 1 {
             self.rep.inc(if acc[0].is_some() { "resolve_exact_some" } else { "resolve_exact_none" });
+            if acc[0].is_some() && (u.delim[q.frag as usize] || u.didlike[q.frag as usize]) {
+              self.count_special_query(u, q, "resolve_exact_some");
+            }
           } else {
             self.rep.inc("resolve_ambiguous");
           }
@@ -1309,6 +1368,9 @@ impl Cx {
         }
       };
       self.rep.inc("resolve_service_checks");
+      if acc.len() == 1 && acc[0].is_some() && (u.delim[q.frag as usize] || u.didlike[q.frag as usize]) {
+        self.count_special_query(u, q, "resolve_service_some");
+      }
       if !acc.contains(&got) {
         let kind = match (&got, acc.iter().any(|a| a.is_some())) {
           (None, _) => "missed",
@@ -1581,7 +1643,10 @@ fn exhaustive_ops(env: &Env) -> Vec<Op> {
     qidx.push(env.qs.iter().position(|q| q.pass == Pass::Str && q.text == s).expect("query") as u16);
   }
   for f in 0..2u8 {
-    qidx.push(env.qs.iter().position(|q| q.form == "bare-fragment" && q.frag == f).expect("query") as u16);
+    // the fragment alone; led by '#' where the bare text would read as a DID URL
+    let bare = env.qs.iter().position(|q| q.form == "bare-fragment" && q.frag == f);
+    let hash = env.qs.iter().position(|q| q.form == "hash-fragment" && q.frag == f);
+    qidx.push(bare.or(hash).expect("query") as u16);
   }
   for q in qidx {
     for rel in 0..2u8 {
@@ -1865,7 +1930,8 @@ fn main() {
      DIDUrl, &RelativeDIDUrl; full id, path/query variant, bare/hash fragment, relative url) from random harness-generated start \
      documents (deserialised or built), on CoreDocument and IotaDocument; entries carry multibase / JWK / base58 / custom method data \
      and are made through the builder API or from JSON depending on their tag; every state is resolved through resolve_method, \
-     resolve_method_mut, resolve_service and methods in every scope; non-trivial+distinct = class (document type, operation, \
+     resolve_method_mut, resolve_service and methods in every scope; (a') the histories of (a) one level shallower and further random \
+     walks over ids whose fragment contains '/' or '?' or reads as a DID itself (keys/1, key?v=2, did:key:z6Mk, the document's own DID); non-trivial+distinct = class (document type, operation, \
      scope/id/query class, result, dangling refs present, live refs present, size bucket); distinct_exact = histories distinct by construction",
   );
   let thorough = args.thorough;
@@ -1892,6 +1958,41 @@ fn main() {
       directed_gate::<IotaDocument>(&mut cx, &mut env);
       extra_property_probe::<IotaDocument>(&mut cx, &mut env);
     }
+  }
+
+  // ---- (a') the same exhaustive histories, one level shallower, over ids whose fragment is not a plain name: fragments
+  // that contain the characters which delimit the other components of a DID URL ('/' and '?' are fragment characters),
+  // and fragments that read as a DID themselves (':' is a fragment character; a key named after a did:key, a fragment
+  // equal to the document's own DID). The four fixed start documents are opened (and fully queried) in each universe.
+  let special_depth = if scale >= 1000 {
+    if thorough {
+      3
+    } else {
+      2
+    }
+  } else {
+    2
+  };
+  // (at a reduced scale one universe with one fragment of either kind stands for the five; the random walks below then
+  // cover IotaDocument)
+  let full = scale >= 1000;
+  let core_special: &[(&'static str, [&'static str; 2])] = if full {
+    &[("core-delimiter-fragments", ["keys/1", "key?v=2"]), ("core-did-like-fragments", ["did:key:z6Mk", "did:example:alice"]), ("core-mixed-fragments", ["did:web:a.example/k?v=1", "/?"])]
+  } else {
+    &[("core-special-fragments-small", ["keys/1", "did:key:z6Mk"])]
+  };
+  let iota_special: &[(&'static str, [&'static str; 2])] = if full {
+    &[("iota-delimiter-fragments", ["a/b", "?c=d/e"]), ("iota-did-like-fragments", ["did:key:z6Mk", "did:iota:0x1111111111111111111111111111111111111111111111111111111111111111"])]
+  } else {
+    &[]
+  };
+  for (kind, frags) in core_special.iter().copied() {
+    let mut env = Env::new(Uni::new(kind, CORE_DIDS, &frags));
+    exhaustive::<CoreDocument>(&mut cx, &args, &mut env, special_depth, stride, &mut unit);
+  }
+  for (kind, frags) in iota_special.iter().copied() {
+    let mut env = Env::new(Uni::new(kind, IOTA_DIDS, &frags));
+    exhaustive::<IotaDocument>(&mut cx, &args, &mut env, special_depth, stride, &mut unit);
   }
 
   // ---- (b) random walks
@@ -1926,6 +2027,21 @@ fn main() {
   for dids in [PREFIX_DIDS_A, PREFIX_DIDS_B] {
     let mut env = Env::new(Uni::new("core", dids, &["f0", "f1", "f2"]));
     random_walks::<CoreDocument>(&mut cx, &mut env, &mut rng, (n_odd / 2).max(1), 40);
+  }
+  // fragments that are not plain names (see (a')), mixed with a plain one
+  let n_special = (n_odd / 2).max(1);
+  if full {
+    let mut env = Env::new(Uni::new("core-special-fragments", CORE_DIDS, &["keys/1", "key?v=2", "did:key:z6Mk"]));
+    random_walks::<CoreDocument>(&mut cx, &mut env, &mut rng, n_special, 40);
+  }
+  {
+    let mut env = Env::new(Uni::new("iota-special-fragments", IOTA_DIDS, &["did:web:example.com", "a/b?c", "f0"]));
+    random_walks::<IotaDocument>(&mut cx, &mut env, &mut rng, n_special, 40);
+  }
+  if full {
+    // a fragment that is a prefix of another up to a delimiter, a percent-encoded and a sub-delimiter fragment
+    let mut env = Env::new(Uni::new("core-special-fragments-2", PREFIX_DIDS_A, &["keys", "keys/1", "did:example:alice1", "k%2F1;a=b,c"]));
+    random_walks::<CoreDocument>(&mut cx, &mut env, &mut rng, n_special, 40);
   }
   cx.rep.note("scale", json!(scale));
   cx.rep.note("walks_per_shard", json!(per_shard));
